@@ -309,10 +309,10 @@ IskMenu == IF Full THEN {<<0, 0>>, <<4, 5>>, <<96, 0>>, <<32, 70000>>} ELSE {<<0
 DoBuild21 == /\ obj.kind = "none" /\ hist = <<>>
              /\ \E c \in {"p256", "p384"} : \E nu \in NU :
                   \/ Build21(FirstKeys(c, nu[1]), nu[2], FALSE, NoKey, 0, 0)
-                  \/ \E uc \in IskMenu : Build21(FirstKeys(c, nu[1]), nu[2], TRUE, Key(c, 7), uc[1], uc[2])
+                  \/ \E ic \in {"p256", "p384"} : \E uc \in IskMenu : Build21(FirstKeys(c, nu[1]), nu[2], TRUE, Key(ic, 7), uc[1], uc[2])
 \* "user data of every allowed length": all multiples of the alignment (4) up to the limit (96), short history
 DoBuild21Ud == /\ Full /\ obj.kind = "none" /\ hist = <<>>
-               /\ \E c \in {"p256", "p384"} : \E n \in {1, 4} : \E u \in 0..24 : Build21(FirstKeys(c, n), n, TRUE, Key(c, 7), 4 * u, 1)
+               /\ \E c \in {"p256", "p384"} : \E n \in {1, 4} : \E ic \in {"p256", "p384"} : \E u \in 0..24 : Build21(FirstKeys(c, n), n, TRUE, Key(ic, 7), 4 * u, 1)
 DoSetUserData == \E len \in (IF Full THEN {0, 8, 96} ELSE {8}) : len # obj.ud.len /\ SetUserData(len)
 DoSetConstraints == \E c \in (IF Full THEN {0, 7} ELSE {7}) : SetConstraints(c)
 Cb21Next == mode = "cb21" /\ (DoBuild21 \/ DoBuild21Ud \/ (obj.kind = "cb21" /\ (Export21 \/ Parse21 \/ DoSetUserData \/ DoSetConstraints)))
@@ -421,5 +421,10 @@ ReadEveryStep == mode = "tab" /\ scen.chg > 0 /\ nchg > 0 /\ Len(hist) >= 2 =>
 BlockLen == mode = "cb21" /\ act.a = "Export21" =>
    act.term.len = (LET o == out  c == o.keys[1].cls  n == Len(o.keys) IN
                    12 + 4 + (IF n = 1 THEN 0 ELSE n * HashLen(HashOf(c))) + 2 * ALen(c)
-                   + (IF o.isk THEN 12 + 2 * ALen(c) + o.ud.len + 2 * ALen(c) ELSE 0))
+                   + (IF o.isk THEN 12 + 2 * ALen(o.iskKey.cls) + o.ud.len + 2 * ALen(c) ELSE 0))
+\* the signature-offset word of the ISK header is the documented sum of the parts that are THERE (header, ISK key on ITS curve, user data),
+\* whatever the curve of the root keys: it is where the signature field starts in the exported ISK certificate
+SigOffset == mode = "cb21" /\ act.a = "Export21" /\ out.isk =>
+   LET hdr == IskHdr(out) IN
+   SubSeq(hdr.bytes, 1, 4) = U32le(hdr.len + Raw(out.iskKey).len + UD(out).len)
 =============================================================================
